@@ -704,7 +704,15 @@ func checkProofBody(p *Prog, r *Report, kp func(string, string) string, m *didMo
 		// (d) pubkey decoded successfully from the looked-up method
 		okPK := false
 		c, k := pk.Res()
-		if pk.Op == "res" && k == 0 && c.Op == "call" && len(c.Args) == 1 && c.Args[0].Op == "field" && c.Args[0].Name == "PublicKeyBase58" {
+		// the decoder's operand is the method's PublicKeyBase58, possibly already base58-decoded by a wrapper that was looked through
+		src := (*Term)(nil)
+		if c != nil && c.Op == "call" && len(c.Args) == 1 {
+			src = c.Args[0]
+			if src.IsCall("base58.Decode") && len(src.Args) == 1 {
+				src = src.Args[0]
+			}
+		}
+		if pk.Op == "res" && k == 0 && src != nil && src.Op == "field" && src.Name == "PublicKeyBase58" {
 			_, okPK = fa.DominatingFact(ret, true, func(t *Term) bool {
 				if t.Op != "eq" {
 					return false
@@ -738,7 +746,7 @@ func checkProofBody(p *Prog, r *Report, kp func(string, string) string, m *didMo
 						continue
 					}
 					for _, side := range t.Args {
-						if side.IsCall("builtin:len") && len(side.Args) == 1 && side.Args[0].Contains(func(x *Term) bool { return x.Op == "call" && strings.Contains(x.Name, "Decode") }) && Entails(F, a) {
+						if side.IsCall("builtin:len") && len(side.Args) == 1 && (side.Args[0].Contains(func(x *Term) bool { return x.Op == "call" && strings.Contains(x.Name, "Decode") }) || side.Args[0].Op == "param" && side.Args[0].Val != nil && isByteSlice(side.Args[0].Val.Type())) && Entails(F, a) {
 							found = true
 						}
 					}
@@ -828,3 +836,4 @@ func checkVerifyBody(p *Prog, r *Report, kp func(string, string) string, v *ssa.
 			"Marshal({Data: Marshal($0), Sequence: $1})", "signed bytes = "+why)
 	}
 }
+
